@@ -34,9 +34,14 @@ TrUnmap    == IsEvent("Unmap")    /\ Unmap(Ev.r, Ev.off, Ev.len) /\ Consume
 TrWrite    == IsEvent("CodeWrite") /\ CodeWrite(Ev.r, Ev.lo, Ev.hi) /\ Consume
 TrFinish   == IsEvent("Finish")   /\ Finish /\ Consume
 TrReset    == IsEvent("Reset")    /\ Reset /\ Consume
+(* Cut: written by the trace splitter (never by the ledger) behind the prefix of an execution that ended in a   *)
+(* code-page fault, so that the executions after it in the same file are validated; the fault event itself has *)
+(* no action, so the shard that holds it is rejected before its Cut.                                           *)
+TrCut      == IsEvent("Cut") /\ phase = "run" /\ Consume
+              /\ live' = <<>> /\ code' = <<>> /\ phase' = "idle" /\ maxid' = 0 /\ maxr' = 0 /\ freed' = {}
 
 TNext == \/ TrStart \/ TrApi \/ TrMalloc \/ TrCalloc \/ TrRealloc \/ TrFree
-         \/ TrMemMap \/ TrProtect \/ TrUnmap \/ TrWrite \/ TrFinish \/ TrReset
+         \/ TrMemMap \/ TrProtect \/ TrUnmap \/ TrWrite \/ TrFinish \/ TrReset \/ TrCut
 
 TSpec == TInit /\ [][TNext]_tvars
 
